@@ -74,7 +74,7 @@ type Outcome struct {
 // with the reference, site by site. Every disagreement is reported to run.
 func CheckSpec(run *common.Run, fam *Family, s *Spec) Outcome {
 	rd := Render(s)
-	res, err := prog.Run(rd.Prog, prog.Opts{})
+	res, err := prog.RunOrder(rd.Prog, prog.Opts{}, s.ReverseParse)
 	if err != nil {
 		common.Fatalf("generated program does not compile (%v): %v\n%s", specJSON(s), err, rd.Prog.Text())
 	}
@@ -313,7 +313,7 @@ func siteID(si *SiteInst) string { return fmt.Sprintf("%d/%s/%s", si.BlockID, si
 // Observe renders and analyses s and returns the per-site verdicts of fam's analyzer.
 func Observe(fam *Family, s *Spec) *Observation {
 	rd := Render(s)
-	res, err := prog.Run(rd.Prog, prog.Opts{})
+	res, err := prog.RunOrder(rd.Prog, prog.Opts{}, s.ReverseParse)
 	if err != nil {
 		common.Fatalf("generated program does not compile (%v): %v\n%s", specJSON(s), err, rd.Prog.Text())
 	}
